@@ -31,6 +31,11 @@ group), the whole pattern loop on such a line (`C01b_em_loop`: escapes first, th
 ones, each taken out of the text into the stash), `__processPlaceholders` putting them back as children with tails,
 the tree stages (`C01b_em_elem`), and the block stage on lines that start with emphasis delimiters (`C01b_em_line`).
 
+Rung C grown (`C01_inline_mix`): paragraphs, ATX and Setext headings whose content is words, escapes, code spans AND
+one level of emphasis around words, in any order and number (`MixDoc`, which contains `SpanDoc` and `EmDoc`:
+`C01b_mix_contains`).  Still excluded: an escaped backslash directly before a code span (`noBsBeforeCode`), `<` in
+code, emphasis around anything but one run of words.
+
 How it is proved: `C01_chunks`/`C01_leaves` of `Props/C01.lean` are generalised to
 * `Elem`/`ElemOK` (`C01b_render_elems`): one child of the root through inline processor, prettify, unescape, serializer
   — with what it adds to the stash and pushes on the inline processor's stack; the leaves of `Props/C01.lean` and
@@ -200,7 +205,143 @@ theorem C01_em_strong (d : Doc) (sp : Spelling) (hwf : WF d = true) (hs : DocSpe
     Pipeline.convert {} (print d sp) = .ok (spec d) :=
   convert_emDoc d sp hwf hs
 
+/-! ### rung C grown: code spans and emphasis in one paragraph or heading -/
+
+/-- **The pattern loop on a mixed line.**  On `escaped t0 ++ (item ++ escaped t)*`, the items being code spans and
+    emphasised words in any order: pattern 0 takes the code spans out, pattern 1 the escapes, pattern 14 the `*`
+    emphases, pattern 15 the `_` emphases; what is left is the texts with placeholders, and the stash holds the
+    elements in that order. -/
+theorem C01b_mix_loop (cfg : Inline.Cfg) (hE : EscOK cfg.esc) (t0 : Str) (segs : List MSeg) (st : Inline.St)
+    (hok : MSegsOK segs) (hj : junctionsOK t0 false segs) (hu : UnderOKM cfg.esc (lastW cfg.esc t0) segs)
+    (hplain : ∀ c, (c ∈ t0 ∨ ∃ s ∈ segs, c ∈ s.t) → c ≠ '&' ∧ c ≠ '\n') :
+    Inline.handleInlineTop cfg (Escape.escAll cfg.esc t0 ++ rawM cfg.esc segs) st =
+      some (Escape.resid cfg.esc (st.stash.length + (nodesOf 0 segs).length) t0 ++
+          stageM cfg.esc 3 true (st.stash.length + (nodesOf 0 segs).length + Escape.escCount cfg.esc t0)
+            st.stash.length
+            (st.stash.length + (nodesOf 0 segs).length + Escape.escCount cfg.esc t0 + escCountM cfg.esc segs)
+            (st.stash.length + (nodesOf 0 segs).length + Escape.escCount cfg.esc t0 + escCountM cfg.esc segs +
+              (nodesOf 1 segs).length) segs,
+        { st with stash := st.stash ++ (nodesOf 0 segs ++ (Escape.stashOf cfg.esc t0 ++ stashOfM cfg.esc segs) ++
+            nodesOf 1 segs ++ nodesOf 2 segs) }) :=
+  handleInlineTop_mix cfg hE t0 segs st hok hj hu hplain
+
+/-- **A mixed paragraph or heading is an element of the composition.** -/
+theorem C01b_mix_elem (cfg : Inline.Cfg) (hE : EscOK cfg.esc) (tag t0 : Str) (segs : List MSeg)
+    (h : MixTxtOK cfg.esc tag t0 segs) : ElemOK cfg (mixTxtElem cfg.esc tag t0 segs) :=
+  mixTxtElem_ok cfg hE tag t0 segs h
+
+/-- **The printed form of mixed content**: escaped text, code spans with a fence their body does not contain,
+    emphasised words between `*` or `_`, and `_` only between characters that are not word characters. -/
+theorem C01b_mix_print (c : List DocSpec.Inline) (h : mixItemsOK c = true) (st : PSt) :
+    ∃ (segs : List MSeg) (st' : PSt),
+      printInlines none true true c st = (Escape.escAll ESC (splitMix c).1 ++ rawM ESC segs, st') ∧
+      st'.defs = st.defs ∧ segs.map (fun s => (s.k.q, s.t)) = (splitMix c).2 ∧
+      (∀ s ∈ segs, KPrinted s.k) ∧ UnderOKM ESC (lastW ESC (splitMix c).1) segs := by
+  obtain ⟨segs, st', h1, h2, h3, h4, h5⟩ := printInlines_mix c h true true st
+  exact ⟨segs, st', h1, h2, h3, h4, by rw [← pwOf_true]; exact h5⟩
+
+theorem noBs_of_emRun (c : List DocSpec.Inline) (h : c.all isEmItem = true) : noBsBeforeCode c = true := by
+  induction c with
+  | nil => rfl
+  | cons x r ih =>
+    simp only [List.all_cons, Bool.and_eq_true] at h
+    have ihr := ih h.2
+    cases x with
+    | esc ch =>
+      cases r with
+      | nil => rfl
+      | cons y r' =>
+        cases y with
+        | code b => simp [isEmItem] at h
+        | _ => simpa [noBsBeforeCode] using ihr
+    | _ => simpa [noBsBeforeCode] using ihr
+
+/-- **`MixDoc` contains the sub-grammars of rungs B and C.** -/
+theorem C01b_mix_contains (d : Doc) (h : DocSpec.EmDoc d = true) : DocSpec.MixDoc d = true := by
+  simp only [DocSpec.EmDoc, DocSpec.MixDoc, List.all_eq_true] at h ⊢
+  intro b hb
+  have hs : ∀ c : List DocSpec.Inline, spanRun c = true → mixRun c = true := by
+    intro c hc
+    simp only [spanRun, mixRun, Bool.and_eq_true, List.all_eq_true] at hc ⊢
+    refine ⟨fun x hx => ?_, hc.2⟩
+    have := hc.1 x hx
+    cases x <;> simp_all [isSpanItem, isMixItem]
+  have he : ∀ c : List DocSpec.Inline, emRun c = true → mixRun c = true := by
+    intro c hc
+    simp only [mixRun, Bool.and_eq_true]
+    refine ⟨?_, noBs_of_emRun c hc⟩
+    simp only [emRun, List.all_eq_true] at hc ⊢
+    intro x hx
+    have := hc x hx
+    cases x with
+    | em l => cases l with
+      | nil => simp [isEmItem] at this
+      | cons y l' => cases l' <;> cases y <;> simp_all [isEmItem, isMixItem]
+    | strong l => cases l with
+      | nil => simp [isEmItem] at this
+      | cons y l' => cases l' <;> cases y <;> simp_all [isEmItem, isMixItem]
+    | _ => simp_all [isEmItem, isMixItem]
+  have := h b hb
+  cases b with
+  | para c =>
+    simp only [isEmBlock, Bool.or_eq_true] at this
+    rcases this with h' | h'
+    · exact hs c h'
+    · exact he c h'
+  | atx l c =>
+    simp only [isEmBlock, Bool.or_eq_true] at this
+    rcases this with h' | h'
+    · exact hs c h'
+    · exact he c h'
+  | setext l c =>
+    simp only [isEmBlock, Bool.or_eq_true] at this
+    rcases this with h' | h'
+    · exact hs c h'
+    · exact he c h'
+  | rule => rfl
+  | code ls => simpa [isEmBlock, isSpanBlock, isMixBlock] using this
+  | quote _ => simp [isEmBlock, isSpanBlock] at this
+  | ulist _ _ => simp [isEmBlock, isSpanBlock] at this
+  | olist _ _ => simp [isEmBlock, isSpanBlock] at this
+
+/-- **Rung C grown.**  `d` well-formed, every block a rule, an indented code block without `<`, or a paragraph / ATX
+    heading / Setext heading of words, escapes, code spans without `<` and `em` / `strong` around words, in any order
+    (no escaped backslash directly before a code span): under EVERY spelling the converter returns `spec d`. -/
+theorem C01_inline_mix (d : Doc) (sp : Spelling) (hwf : WF d = true) (hs : DocSpec.MixDoc d = true) :
+    Pipeline.convert {} (print d sp) = .ok (spec d) :=
+  convert_mixDoc d sp hwf hs
+
 /-! ### the hypotheses are satisfiable; instances evaluated by the kernel -/
+
+/-- code spans and emphasis touching each other in every order, with escapes in between; code bodies that look like
+    emphasis -/
+def sampleMix : Doc :=
+  [.para [.em [.text (S "one")], .code (S "a*b"), .text (S " and "), .strong [.text (S "two words")], .esc '*',
+     .code (S "`x`"), .em [.text (S "y")], .esc '_', .code (S "_z_")],
+   .atx 3 [.code (S "f"), .strong [.text (S "Bold")], .em [.text (S "it")], .text (S " tail "), .code (S "\\")],
+   .setext 1 [.text (S "A "), .em [.text (S "b c")], .text (S " "), .code (S "**"), .strong [.text (S "d")]],
+   .code [S "*raw*"]]
+
+example : WF sampleMix = true ∧ DocSpec.MixDoc sampleMix = true ∧ DocSpec.EmDoc sampleMix = false := by decide
+
+example : print sampleMix ⟨[0, 1, 1, 3, 1, 5, 7, 2, 1, 1, 9, 3, 1, 1, 1, 1, 1, 1, 3, 3, 3]⟩ =
+    ("_one_``a*b`` and __two words__\\*``` `x` ```_y_\\_``_z_``\n\n### ``f``**Bold**_it_ tail `\\` ###\n\n" ++
+     " A _b c_ ``**``__d__\n==\n\n    *raw*").toList := by decide +kernel
+
+example : spec sampleMix =
+    ("<p><em>one</em><code>a*b</code> and <strong>two words</strong>*<code>`x`</code><em>y</em>_<code>_z_</code></p>\n" ++
+     "<h3><code>f</code><strong>Bold</strong><em>it</em> tail <code>\\</code></h3>\n" ++
+     "<h1>A <em>b c</em> <code>**</code><strong>d</strong></h1>\n<pre><code>*raw*\n</code></pre>").toList := by
+  decide +kernel
+
+example : Pipeline.convert {} (print sampleMix ⟨[0, 1, 1, 3, 1, 5, 7, 2, 1, 1, 9, 3, 1, 1, 1, 1, 1, 1, 3, 3, 3]⟩) =
+    .ok (spec sampleMix) :=
+  C01_inline_mix _ _ (by decide) (by decide)
+
+/-- the same instance evaluated by the kernel on the model, independently of the theorem -/
+example : Pipeline.convert {} (print sampleMix ⟨[0, 1, 1, 3, 1, 5, 7, 2, 1, 1, 9, 3, 1, 1, 1, 1, 1, 1, 3, 3, 3]⟩) =
+    .ok (spec sampleMix) := by decide +kernel
+
 
 /-- emphasis at the start, the end and in the middle of paragraphs and headings, adjacent emphases, emphasis next to
     escapes (also an escaped `*` and `_`), words with spaces, and blocks of rung B in the same document -/
